@@ -126,7 +126,11 @@ func runM(pid string, cs []mCase, capMs int) ([]gCase, [][]Failure, map[string]i
 			if !g.NoCoq && g.Kind != "reuse" && g.Kind != "enc" {
 				g.Huge = true
 			}
-			add("decode/over-allocation", fmt.Sprintf("decoding %d bytes allocated %d bytes (> 256 x input + 1 MiB)", len(g.Bytes), r.Alloc))
+			sig := "decode/over-allocation"
+			if c.sigHint != "" {
+				sig += "/" + c.sigHint
+			}
+			add(sig, fmt.Sprintf("decoding %d bytes allocated %d bytes (> 256 x input + 1 MiB)", len(g.Bytes), r.Alloc))
 		}
 		if pid == "C05" && r.Died == "" && r.Us > slowLimitUs(len(g.Bytes)) && stillSlow(reqs[i]) {
 			add("decode/slow", fmt.Sprintf("decoding %d bytes took %d us (limit %d us: not linear in the input)", len(g.Bytes), r.Us, slowLimitUs(len(g.Bytes))))
